@@ -149,12 +149,12 @@ m("o13-map-registry-count-drifts", "C14", "C14/count", ("conn_map.go",
 }"""))
 m("o14-hash-depends-on-history", "C15", "hash-unstable", ("load_balancer.go",
   """	hashCode := lb.hash(netAddr.String())
-	return lb.eventLoops[hashCode%lb.size]""",
+	loops := lb.loops()""",
   """	hashCode := lb.hash(netAddr.String())
+	loops := lb.loops()
 	if hashCode%7 == 0 {
-		hashCode += int(lb.eventLoops[0].countConn())
-	}
-	return lb.eventLoops[hashCode%lb.size]"""))
+		hashCode += int(loops[0].countConn())
+	}"""))
 m("o15-read-enobufs-swallowed", "C18", "victim-not-closed", (EL,
   """		if err == unix.EAGAIN {
 			return nil
@@ -305,6 +305,23 @@ m("o28-udp-open-reply-truncated", "C08", "client-open-reply", (CU,
   """	if c.isDatagram && c.remote == nil {
 		return unix.Send(c.fd, buf[:len(buf)-1], 0)
 	}"""))
+
+m("o29-connection-counter-read-without-atomic", "C05", "data-race", ("conn_map.go",
+  """func (cm *connMatrix) loadCount() (n int32) {
+	return atomic.LoadInt32(&cm.connCount)
+}""",
+  """func (cm *connMatrix) loadCount() (n int32) {
+	return cm.connCount
+}"""))
+m("o30-balancer-list-published-without-atomic", "C05", "data-race", ("load_balancer.go",
+  """	loops[len(old)] = el
+	lb.eventLoops.Store(&loops)""",
+  """	loops[len(old)] = el
+	if p := lb.eventLoops.Load(); p != nil {
+		*p = loops
+		return
+	}
+	lb.eventLoops.Store(&loops)"""))
 
 
 def main():
